@@ -27,6 +27,7 @@ class Ctx:
         self._res = None
         self._flow = None
         self._effects = None
+        self._norm = None
         self.use_cache = use_cache and not overlay
         self.chk = Check(prop, tier, seed)
         self.engines: list[PathEngine] = []
@@ -62,6 +63,14 @@ class Ctx:
 
             self._effects = Effects(self.repo, self.res, self.flow)
         return self._effects
+
+    @property
+    def norm(self):
+        if self._norm is None:
+            from .normalize import Normalizer
+
+            self._norm = Normalizer(self)
+        return self._norm
 
     def engine(self, **kw) -> PathEngine:
         kw.setdefault("max_depth", 6 if self.thorough else 4)
